@@ -7,11 +7,16 @@
     calls (after a fault anywhere before), the key's name is bound to what it was
     bound to, to nothing, or to the inode the source named - never to anything else
     ([C02_publication_is_atomic_at_every_crash_point]), and the write paths change
-    no file contents, so either inode is complete.  Usability after the crash and
-    reclamation of stale debris: crash-point enumeration (vlib/c02.py). *)
+    no file contents, so either inode is complete; (4) "normal semantics" after
+    the crash: whatever program a process was running, wherever it died, every
+    later history of the public API on a plain write cache keeps the key-value
+    semantics of C11 from whatever the directory shows at that moment, and keeps
+    every file's bytes ([C02_histories_after_any_crash]).  That the later
+    operations SUCCEED, and reclamation of stale debris: crash-point enumeration
+    (vlib/c02.py). *)
 From Coq Require Import List NArith ZArith String Bool.
 Import ListNotations.
-From Kismet Require Import Pure.Hash FS.Fs FS.Prog Ops.Ops Ops.Client Spec.ClassMon Spec.Calm Conc.Pool Conc.Effect Conc.Immut Proofs.PoolLift Proofs.DebrisInTemp Seq.Plain Proofs.KvSeq Proofs.KvTemp.
+From Kismet Require Import Pure.Hash FS.Fs FS.Prog Ops.Ops Ops.Client Spec.ClassMon Spec.Calm Conc.Pool Conc.Effect Conc.Immut Proofs.PoolLift Proofs.DebrisInTemp Seq.Plain Proofs.KvSeq Proofs.KvTemp Proofs.KvHist.
 (** A crash before the n-th call executes exactly the calls before it: the
     crashed run's trace is a prefix of the full run's trace. *)
 Theorem C02_crash_before_first_call : forall A (p : prog A) c k w o,
@@ -83,6 +88,17 @@ Theorem C02_class_meaning : forall sys p m d,
   tmp_ok sys (CCreate p m) = has_temp p /\ tmp_ok sys (CCreateTrunc p m) = false /\
   tmp_ok sys (COpenTmp d) = (has_temp d || path_eqb d sys)%bool.
 Proof. intros. repeat split. Qed.
+
+(** After a crash of ANY program at ANY call boundary (any fault before), the
+    public API keeps its semantics: every later history refines the key-value map
+    of C11 starting from the bindings the crash left, and no file changes. *)
+Theorem C02_histories_after_any_crash : forall cfg dir cap A (p : prog A) w o n ops os,
+  s_writer cfg = Some (FPlain dir cap) -> s_readers cfg = [] -> s_checker cfg = None -> plainp dir = true ->
+  names_plain (w_fs w) -> Forall (sop_wf dir) ops ->
+  let '(w', _, _, _) := run_crash p w o n in
+  shist cfg dir ops os w' (al_of (plain_cdir dir cap) (w_fs w')) /\
+  forall i D, data (w_fs w') i = Some D -> i < next_ino (w_fs w') -> data (w_fs (srun cfg ops os w')) i = Some D.
+Proof. intros cfg dir cap A p w o n ops os Hw Hr Hc Hb. exact (history_after_any_crash cfg dir cap Hw Hr Hc Hb p w o n ops os). Qed.
 
 (** Non-vacuity of the atomicity theorem: key "a" holds inode 2; set "a" <- "v"
     (inode 3) killed before each of its first 12 calls: the name is bound to the
